@@ -816,3 +816,22 @@ def r16m(F):
 
 RULES.append(('16.m', 'max_final_value_msat: the hop reported on fee-aggregation overflow is the first hop whose fees were aggregated (error index == skip count, linear normal forms)', r16m))
 RULES.append(('16.N', 'arithmetic census: per reviewed function the number of operations per (group: add/sub, mul, div, rem, shift, bit, min, max, div_ceil ...; flavour: plain / checked / saturating / wrapping) is unchanged - a dropped or added `+ 1`, a rounding direction, saturating for checked, min for max (rules/arith.py; value arithmetic itself is not decided)', lambda F: arith.for_property(F, 'C16', '16.N')))
+
+def r16n(F):
+	"""BOLT 7 direction convention in one place for all callers: Direction::select_node_id answers the lesser node id for NodeOne and the greater
+	one for NodeTwo (as select_pubkey and the compact-path producers do) - swapped, a compact blinded-path introduction node given by a directed
+	SCID over one of the payer's own unannounced channels resolves to the wrong end of that channel (oracle: the specification)"""
+	fn = 'lightning::blinded_path::Direction::select_node_id'
+	try:
+		tab = variant_return_table(F, fn, 'lightning::blinded_path::Direction')
+	except AnchorMissing as e:
+		return [Result('16.n', False, 'anchor:select_node_id', str(e))]
+	out = []
+	for v, want in (('NodeOne', 'min'), ('NodeTwo', 'max')):
+		vals = tab.get(v, [])
+		got = sorted({(x[1] or '').rsplit('::', 1)[-1] for x in vals if x[0] == 'call'})
+		ok = got == [want]
+		out.append(Result('16.n', ok, ('ok:' if ok else 'swapped:') + 'direction:' + v, 'Direction::%s selects %s of the two node ids (expected %s)' % (v, got or [expr_str(x)[:40] for x in vals], want), 1, where=F.where(fn)))
+	return out
+
+RULES.append(('16.n', 'Direction::select_node_id: NodeOne is the lesser, NodeTwo the greater node id (BOLT 7 convention; variant-return table)', r16n))
